@@ -344,6 +344,36 @@ func (fr *Frame) applyContract(st *State, ins ssa.Instruction, fc *FuncContract,
 			fr.maybeCall(st, v, true)
 		}
 	}
+	if name == "(*sync.Once).Do" && len(c.Args) > 0 {
+		// `once o: f` on the struct type: Do returns only after the one execution of the closing
+		// function has completed (by this call or an earlier one), and the module scan shows the
+		// channel is closed nowhere else and never reassigned: afterwards the channel is closed
+		if fa, ok := c.Args[0].(*ssa.FieldAddr); ok {
+			if so := structOf(fa.X.Type()); so != nil {
+				if tc := r.eng.cs.Types[structKey(fa.X.Type())]; tc != nil {
+					for _, oc := range tc.Flags["once"] {
+						parts := strings.SplitN(oc, ":", 2)
+						if len(parts) != 2 || strings.TrimSpace(parts[0]) != so.Field(fa.Field).Name() {
+							continue
+						}
+						fld := strings.TrimSpace(parts[1])
+						for i := 0; i < so.NumFields(); i++ {
+							if so.Field(i).Name() != fld {
+								continue
+							}
+							obj := fr.val(st, fa.X)
+							key := r.fieldKey(structKey(fa.X.Type()), so.Field(i))
+							{
+								chv := sSelect(r.get(st, key), obj.S)
+								r.set(st, "g|$closed", sStore(r.get(st, "g|$closed"), chv, "true"))
+								r.assumes["sync.Once: after Do returns the guarded function has completed once ("+structKey(fa.X.Type())+"."+fld+" is closed)"] = true
+							}
+						}
+					}
+				}
+			}
+		}
+	}
 	// the callee may allocate: bump the heap counter first so that values havoced below
 	// (which are assumed to be existing references) may refer to the callee's new objects
 	if fc.Flags["allocates"] != nil || !fc.Extern {
@@ -819,6 +849,11 @@ func (fr *Frame) appendOp(st *State, c *ssa.CallCommon, args []Val, pos token.Po
 		}
 	} else {
 		r.facts.Assert(fmt.Sprintf("(forall ((j Int)) (! (=> (and (<= 0 j) (< j (s_len %[1]s))) (= (select %[2]s (+ %[3]s (s_len %[5]s) j)) (select %[4]s (+ (s_off %[1]s) j)))) :pattern ((select %[2]s (+ %[3]s (s_len %[5]s) j)))))", e.S, narr, off, earr, s.S))
+	}
+	if esrt == "Str" {
+		// sequence view: the result's content is the old content followed by the appended elements
+		r.facts.Assert(fmt.Sprintf("(= (seq_of_str %s %s %s) (seq_cat (seq_of_str %s (s_off %s) (s_len %s)) (seq_of_str %s (s_off %s) (s_len %s))))",
+			narr, off, newlen, sarr, s.S, s.S, earr, e.S, e.S))
 	}
 	// reuse: everything outside the appended window unchanged
 	r.facts.Assert(fmt.Sprintf("(=> %[1]s (forall ((i Int)) (! (=> (or (< i (+ (s_off %[2]s) (s_len %[2]s))) (>= i (+ (s_off %[2]s) %[3]s))) (= (select %[4]s i) (select %[5]s i))) :pattern ((select %[4]s i)))))", reuse, s.S, newlen, narr, sarr))
